@@ -46,7 +46,8 @@ def plan(tier, seed):
                 % maxlen,
         'bound': ', '.join('n=%d:u<=%d' % s for s in specs) + '; %d table entries, sequences <= %d' % (len(items), maxlen),
         'exhaustive': True,
-        'assumptions': ['"listed in the head rule" = occurs in any priority list of the parent category'],
+        'assumptions': ['"listed in the head rule" = occurs in any priority list of the parent category',
+                        'every rule case is preceded by the same call under the other preset (forces collisions in any cache)'],
     }
 
 
@@ -118,6 +119,8 @@ def check_rule(c):
                               % (detail, c['preset'], c['parent'], ' '.join(c['children']), c['pos']),
                     'what': 'mark_heads_by_rules: ' + kind})
     try:
+        # collision forcing: the same labels are first marked under the OTHER preset (result discarded)
+        transform.mark_heads_by_rules(build(mt), mark_heads_preset='ptb' if c['preset'] == 'negra' else 'negra')
         t = build(mt)
         r = transform.mark_heads_by_rules(t, mark_heads_preset=c['preset'])
     except Exception as e:
